@@ -32,6 +32,8 @@
  *   tty <0|1>                    is stdin a terminal
  *   tty1 <0|1>, tty2 <0|1>       is stdout / stderr a terminal (default: ask the kernel)
  *   stdinkind <1..4>             fstat(0) reports a regular file / fifo / character device / socket
+ *   filekind <2|3>               the planned file reports to be a fifo (size 0; lseek and pread fail with ESPIPE) /
+ *                                a character device (size 0)
  *   stdinoffset <n>              regular-file stdin: n bytes were consumed before the program started
  *   stdin <hex>                  synthetic stdin content ("-" for empty)
  *   path <hex>                   the planned path
@@ -74,6 +76,7 @@ static int active = -1; /* -1 unknown, 0 off, 1 on */
 static uint64_t rng_state = 0x9E3779B97F4A7C15ull;
 static int tty0 = 0, tty1 = -1, tty2 = -1; /* -1: ask the real kernel */
 static mode_t stdin_mode(void);
+static int file_kind = 0;  /* 0: a regular file, 2 fifo, 3 character device */
 static int stdin_kind = 0; /* 0: as the kernel says (a pipe), 1 regular file, 2 fifo, 3 character device, 4 socket */
 static unsigned char *sin_buf; static size_t sin_len, sin_pos;
 static char *plan_path; static size_t plan_path_len;
@@ -146,6 +149,7 @@ static void parse_plan(char *text) {
         else if (!strcmp(w, "tty")) { char *a = strtok_r(NULL, " ", &sp); if (a) tty0 = atoi(a); }
         else if (!strcmp(w, "stdinoffset")) { char *a = strtok_r(NULL, " ", &sp); if (a) stdin_offset = (size_t)atol(a); }
         else if (!strcmp(w, "stdinkind")) { char *a = strtok_r(NULL, " ", &sp); if (a) stdin_kind = atoi(a); }
+        else if (!strcmp(w, "filekind")) { char *a = strtok_r(NULL, " ", &sp); if (a) file_kind = atoi(a); }
         else if (!strcmp(w, "tty1")) { char *a = strtok_r(NULL, " ", &sp); if (a) tty1 = atoi(a); }
         else if (!strcmp(w, "tty2")) { char *a = strtok_r(NULL, " ", &sp); if (a) tty2 = atoi(a); }
         else if (!strcmp(w, "stdin")) { char *a = strtok_r(NULL, " ", &sp); if (a) sin_buf = unhex(a, &sin_len); }
@@ -413,6 +417,8 @@ static int stat_event(long *size_override, int *err) {
     logf_("@S kind=truthful\n");
     return 0;
 }
+/* what the planned file claims to be (its content is delivered all the same) */
+static mode_t file_mode_claimed(void) { return file_kind == 2 ? (S_IFIFO | 0600) : (S_IFCHR | 0620); }
 int statx(int dirfd, const char *path_arg, int flags, unsigned int mask, struct statx *stx) {
     ensure_init();
     /* glibc declares the path of statx as nonnull, so the compiler may drop NULL checks on it; std does call
@@ -430,6 +436,7 @@ int statx(int dirfd, const char *path_arg, int flags, unsigned int mask, struct 
     if (planned && stat_event(&so, &err)) { errno = err; return -1; }
     int r = (int)syscall(SYS_statx, dirfd, path, flags, mask, stx);
     if (planned && r == 0 && so >= 0) stx->stx_size = (uint64_t)so;
+    if (planned && r == 0 && file_kind > 0 && S_ISREG(stx->stx_mode)) { stx->stx_mode = (uint16_t)file_mode_claimed(); stx->stx_size = 0; }
     return r;
 }
 static mode_t stdin_mode(void) {
@@ -449,6 +456,7 @@ int fstat(int fd, struct stat *st) {
     if (planned && stat_event(&so, &err)) { errno = err; return -1; }
     int r = (int)syscall(SYS_fstat, fd, st);
     if (planned && r == 0 && so >= 0) st->st_size = (off_t)so;
+    if (planned && r == 0 && file_kind > 0 && S_ISREG(st->st_mode)) { st->st_mode = file_mode_claimed(); st->st_size = 0; }
     return r;
 }
 int fstat64(int fd, struct stat64 *st) { return fstat(fd, (struct stat *)st); }
@@ -462,8 +470,22 @@ static int path_stat(const char *path, struct stat *st, int nofollow) {
     if (stat_event(&so, &err)) { errno = err; return -1; }
     int r = (int)syscall(SYS_newfstatat, AT_FDCWD, path, st, nofollow ? AT_SYMLINK_NOFOLLOW : 0);
     if (r == 0 && so >= 0) st->st_size = (off_t)so;
+    if (r == 0 && file_kind > 0 && S_ISREG(st->st_mode)) { st->st_mode = file_mode_claimed(); st->st_size = 0; }
     return r;
 }
+/* a fifo cannot be repositioned nor read at an offset */
+off_t lseek(int fd, off_t offset, int whence) {
+    ensure_init();
+    if (active == 1 && planned_fd >= 0 && fd == planned_fd && file_kind == 2) { logf_("@L fd=planned ret=-1 errno=%d\n", ESPIPE); errno = ESPIPE; return -1; }
+    return (off_t)syscall(SYS_lseek, fd, offset, whence);
+}
+off_t lseek64(int fd, off_t offset, int whence) { return lseek(fd, offset, whence); }
+ssize_t pread(int fd, void *buf, size_t count, off_t offset) {
+    ensure_init();
+    if (active == 1 && planned_fd >= 0 && fd == planned_fd && file_kind == 2) { logf_("@P fd=planned ret=-1 errno=%d\n", ESPIPE); errno = ESPIPE; return -1; }
+    return syscall(SYS_pread64, fd, buf, count, offset);
+}
+ssize_t pread64(int fd, void *buf, size_t count, off_t offset) { return pread(fd, buf, count, offset); }
 int stat(const char *path, struct stat *st) {
     ensure_init();
     if (is_planned(path)) return path_stat(path, st, 0);
